@@ -264,6 +264,11 @@ func (e *Env) Build(a *APkt, o BuildOpts, now time.Time) ([]byte, error) {
 			}
 			n := len(w.Hops)
 			hvf := func(k int, good bool) []byte {
+				if !good && n >= 2 && r.Intn(2) == 0 {
+					// a wrong HVF that is the right one for the other of the two last hop fields
+					k = 2*n - 3 - k
+					good = true
+				}
 				v := EpicHVF(e.sigma(w, k, viaExt), uint8(s.SrcAddrType)&3, ts0, id, uint64(s.SrcIA),
 					s.RawSrcAddr, uint16(payloadLen))
 				if !good {
